@@ -118,6 +118,11 @@ SrcOutcomes(want) ==
   ELSE IF SrcLeft = 0 THEN {[m |-> 0, e |-> src.fkind]}
   ELSE {[m |-> m, e |-> "nil"] : m \in 0 .. Min(want, SrcLeft) - 1}
        \cup {[m |-> Min(want, SrcLeft), e |-> IF want >= SrcLeft /\ src.withData THEN src.fkind ELSE "nil"]}
+\* the same as a predicate (trace validation meets reads into buffers of 128 MiB: the set above is not to be built)
+SrcOutcomeOK(want, m, e) ==
+  IF src.failed \/ SrcLeft = 0 THEN m = 0 /\ e = src.fkind
+  ELSE \/ 0 <= m /\ m < Min(want, SrcLeft) /\ e = "nil"
+       \/ m = Min(want, SrcLeft) /\ e = (IF want >= SrcLeft /\ src.withData THEN src.fkind ELSE "nil")
 SrcAfter(o) == [src EXCEPT !.pos = src.pos + o.m, !.failed = src.failed \/ o.e # "nil"]
 
 -----------------------------------------------------------------------------
@@ -191,7 +196,7 @@ Start(op, n) ==
 
 SrcRead(m, e) ==
   /\ pc = "reading"
-  /\ [m |-> m, e |-> e] \in SrcOutcomes(R.bcap - R.blen)
+  /\ SrcOutcomeOK(R.bcap - R.blen, m, e)
   /\ src' = SrcAfter([m |-> m, e |-> e])
   /\ LET x == AcqRead(R, cur.n, m, e)
          emp == IF m = 0 /\ e = "nil" /\ R.bcap - R.blen > 0 THEN Min(g.trail + 1, MinGiveUpRun)
